@@ -27,7 +27,7 @@ from ._cookiejar import SimpleCookieJar
 from ._exceptions import WebSocketException, WebSocketBadStatusException
 from ._http import read_headers
 from ._logging import dump, error
-from ._socket import send
+from ._socket import recv, send
 
 __all__ = ["handshake_response", "handshake", "SUPPORTED_REDIRECT_STATUSES"]
 
@@ -148,7 +148,17 @@ def _get_resp_headers(sock, success_statuses: tuple = SUCCESS_STATUSES) -> tuple
         if content_len and content_len.isdecimal():
             # read (at most a bounded part of) the body of the HTTP error message
             # response and include it in the exception; the declared length is not trusted
-            response_body = sock.recv(min(int(content_len), MAX_ERROR_BODY_SIZE))
+            remaining = min(int(content_len), MAX_ERROR_BODY_SIZE)
+            chunks = []
+            while remaining > 0:
+                # the body may arrive in several segments
+                try:
+                    chunk = recv(sock, remaining)
+                except WebSocketException:
+                    break
+                chunks.append(chunk)
+                remaining -= len(chunk)
+            response_body = b"".join(chunks)
         else:
             response_body = None
         raise WebSocketBadStatusException(
